@@ -1,3 +1,77 @@
-import Gengo.Model.Loader
+import Gengo.Model.Predicates
+import Gengo.Generated.Facts
+/-! # C20 – type predicates are sound with respect to Go semantics -/
 namespace Gengo.C20
+open Gengo Gengo.Universe Gengo.Predicates
+
+/-- an object tree that plain assignment copies completely: builtin scalars, defined types over them,
+and structs of such – in particular no pointer, map, slice, channel, function or interface anywhere -/
+inductive ValueOnly (u : U) : Nat → Prop
+  | builtin {o} : u.kind o = .builtin → ValueOnly u o
+  | alias {o x} : u.kind o = .alias → (u.obj o).under = some x → u.kind x = .builtin → ValueOnly u o
+  | struct {o} : u.kind o = .struct → (∀ m ∈ (u.obj o).members, ValueOnly u m.2.2.2) → ValueOnly u o
+
+/-- **isAssignable_sound** (object level): a type reported assignable consists of value-only parts at
+every depth.  (That objects of kind Builtin/Alias/Struct describe Go scalars / defined types / structs
+is C01's `walk` invariant; that no reference type has kind Builtin is `builtin_kinds_are_scalars`.) -/
+theorem isAssignable_sound (u : U) (fuel : Nat) (o : Nat) (h : isAssignable u fuel o = true) : ValueOnly u o := by
+  induction fuel generalizing o with
+  | zero => simp [isAssignable] at h
+  | succ n ih =>
+    simp only [isAssignable, Bool.or_eq_true, Bool.and_eq_true, decide_eq_true_eq, List.all_eq_true] at h
+    rcases h with hp | ⟨hk, hm⟩
+    · simp only [isPrimitive, Bool.or_eq_true, Bool.and_eq_true, decide_eq_true_eq] at hp
+      rcases hp with hp | ⟨h1, h2⟩
+      · exact .builtin hp
+      · cases hu : (u.obj o).under with
+        | none => simp [kindOf, hu] at h2
+        | some x => exact .alias h1 hu (by simpa [kindOf, hu] using h2)
+    · exact .struct hk (fun m hm' => ih _ (hm m hm'))
+
+/-- **isPrimitive_iff**: reported primitive exactly for builtin objects and defined types over them -/
+theorem isPrimitive_iff (u : U) (o : Nat) :
+    isPrimitive u o = true ↔ u.kind o = .builtin ∨ (u.kind o = .alias ∧ ∃ x, (u.obj o).under = some x ∧ u.kind x = .builtin) := by
+  simp only [isPrimitive, Bool.or_eq_true, Bool.and_eq_true, decide_eq_true_eq]
+  constructor
+  · rintro (h | ⟨h1, h2⟩)
+    · exact .inl h
+    · cases hu : (u.obj o).under with
+      | none => simp [kindOf, hu] at h2
+      | some x => exact .inr ⟨h1, x, rfl, by simpa [kindOf, hu] using h2⟩
+  · rintro (h | ⟨h1, x, hx, hk⟩)
+    · exact .inl h
+    · exact .inr ⟨h1, by simp [kindOf, hx, hk]⟩
+
+/-- **isAnonymousStruct_iff**: only a struct object named `struct{}` (or a defined type over one)
+qualifies – a named struct never does, whatever its fields -/
+theorem named_struct_not_anonymous (u : U) (fuel : Nat) (o : Nat) (hk : u.kind o = .struct)
+    (hn : (u.obj o).name.name ≠ kEmptyStruct) : isAnonymousStruct u fuel o = false := by
+  cases fuel with
+  | zero => rfl
+  | succ n => simp [isAnonymousStruct, hk, hn]
+
+theorem empty_struct_is_anonymous (u : U) (fuel : Nat) (o : Nat) (hk : u.kind o = .struct)
+    (hn : (u.obj o).name.name = kEmptyStruct) : isAnonymousStruct u (fuel + 1) o = true := by
+  simp [isAnonymousStruct, hk, hn]
+
+/-- (regenerated fact) every table entry of kind Builtin is a predeclared *scalar*: no reference type
+can be reported primitive or assignable through the table -/
+def scalars : List String := ["bool", "string", "int", "int8", "int16", "int32", "int64", "uint", "uint8", "uint16",
+  "uint32", "uint64", "uintptr", "byte", "rune", "float32", "float64", "complex64", "complex128", "float"]
+
+theorem builtin_kinds_are_scalars_v1 :
+    Generated.builtinsV1.all (fun e => e.2.2.2 != "Builtin" || scalars.contains e.1) = true := by decide
+theorem builtin_kinds_are_scalars_v2 :
+    Generated.builtinsV2.all (fun e => e.2.2.2 != "Builtin" || scalars.contains e.1) = true := by decide
+
+/-- **isPrimitive_iff** (table side): every Go scalar is in the table with kind Builtin (F3) -/
+theorem scalars_are_builtin_v1 :
+    ["bool", "string", "int", "int8", "int16", "int32", "int64", "uint", "uint8", "uint16", "uint32", "uint64", "uintptr",
+     "byte", "rune", "float32", "float64", "complex64", "complex128"].all
+      (fun s => Generated.builtinsV1.any (fun e => e.1 = s && e.2.2.2 = "Builtin")) = true := by decide
+theorem scalars_are_builtin_v2 :
+    ["bool", "string", "int", "int8", "int16", "int32", "int64", "uint", "uint8", "uint16", "uint32", "uint64", "uintptr",
+     "byte", "rune", "float32", "float64", "complex64", "complex128"].all
+      (fun s => Generated.builtinsV2.any (fun e => e.1 = s && e.2.2.2 = "Builtin")) = true := by decide
+
 end Gengo.C20
